@@ -60,6 +60,8 @@ pub struct Ledger {
     /// serial of the value behind every `Drop` callback so far, in call order (0 for zero-sized values); lets the fault
     /// engine say which value the k-th `Drop` call of an operation destroys before it arms that call
     pub drop_trace: Vec<u64>,
+    /// serial of the SOURCE value of every `Clone` callback so far, in call order (0 for zero-sized values)
+    pub clone_trace: Vec<u64>,
 }
 
 impl Ledger {
@@ -73,6 +75,7 @@ impl Ledger {
             calls: [0; NCB],
             armed: None,
             drop_trace: Vec::new(),
+            clone_trace: Vec::new(),
             fired: false,
             next_val: 100,
         }
@@ -135,6 +138,10 @@ pub fn token_errors() -> usize {
 pub struct InjectedPanic(pub Cb, pub u64);
 
 /// Counts a user callback and panics if the fault engine armed exactly this call.
+fn note_clone(serial: u64) {
+    with_ledger(|l| l.clone_trace.push(serial));
+}
+
 pub fn tick(cb: Cb) {
     let fire = with_ledger(|l| {
         let k = l.calls[cb as usize];
@@ -299,6 +306,7 @@ impl<const K: u32> Drop for Small<K> {
 }
 impl<const K: u32> Clone for Small<K> {
     fn clone(&self) -> Self {
+        note_clone(self.0.serial);
         tick(Cb::Clone);
         self.0.check(Self::TAG);
         Self::make(self.0.val)
@@ -341,6 +349,7 @@ impl<const K: u32> Drop for Heap<K> {
 }
 impl<const K: u32> Clone for Heap<K> {
     fn clone(&self) -> Self {
+        note_clone(self.tok.serial);
         tick(Cb::Clone);
         self.read();
         Self::make(self.tok.val)
@@ -384,6 +393,7 @@ impl<const K: u32> Drop for Big<K> {
 }
 impl<const K: u32> Clone for Big<K> {
     fn clone(&self) -> Self {
+        note_clone(self.tok.serial);
         tick(Cb::Clone);
         self.read();
         Self::make(self.tok.val)
@@ -421,6 +431,7 @@ impl<const K: u32> Drop for Zst<K> {
 }
 impl<const K: u32> Clone for Zst<K> {
     fn clone(&self) -> Self {
+        note_clone(0);
         tick(Cb::Clone);
         Self::make(0)
     }
